@@ -102,12 +102,18 @@ func runC01(c *Ctx) {
 		ast.Inspect(bi.Decl.Body, func(n ast.Node) bool {
 			switch x := n.(type) {
 			case *ast.IfStmt:
-				if strings.HasSuffix(exprString(x.Cond), ".Err != nil") {
-					errTest = x.Cond
+				// the error member of the build result (by type, whatever it is called) compared with nil
+				if be, ok := ast.Unparen(x.Cond).(*ast.BinaryExpr); ok && be.Op == token.NEQ && isNilIdent(info, be.Y) {
+					if se, ok := ast.Unparen(be.X).(*ast.SelectorExpr); ok && namedName(info.TypeOf(se.X)) == "buildResult" && isErrorType(info.TypeOf(se)) {
+						errTest = x.Cond
+					}
 				}
 			case *ast.SelectorExpr:
-				if x.Sel.Name == "Files" && namedName(info.TypeOf(x.X)) == "buildResult" && filesUse == nil {
-					filesUse = x
+				// the files member: the slice-typed one
+				if namedName(info.TypeOf(x.X)) == "buildResult" && filesUse == nil {
+					if _, isSlice := info.TypeOf(x).Underlying().(*types.Slice); isSlice {
+						filesUse = x
+					}
 				}
 			}
 			return true
